@@ -47,6 +47,7 @@ func isNoise(name string) bool {
 type skb struct {
 	closures map[string]*ast.FuncLit // local `f := func...`
 	maps     map[string]bool         // names of maps whose accesses are actions
+	fields   map[string]bool         // names of struct fields / package variables whose every mention is an action
 }
 
 func sSeq(a, b string) string {
@@ -156,7 +157,11 @@ func (b *skb) expr(e ast.Expr) string {
 				return sSeq(r, sAct("close:"+types.ExprString(x.Args[0])))
 			}
 			if f.Name == "delete" && len(x.Args) == 2 {
-				return sSeq(r, sAct("mapdelete:"+types.ExprString(x.Args[0])))
+				n := types.ExprString(x.Args[0])
+				if (len(b.maps) == 0 && len(b.fields) == 0) || b.maps[lastSel(n)] {
+					return sSeq(r, sAct("mapdelete:"+n))
+				}
+				return r
 			}
 		case *ast.SelectorExpr:
 			r = sSeq(b.expr(f.X), r)
@@ -188,7 +193,15 @@ func (b *skb) expr(e ast.Expr) string {
 	case *ast.ParenExpr:
 		return b.expr(x.X)
 	case *ast.SelectorExpr:
+		if b.fields[x.Sel.Name] {
+			return sSeq(b.expr(x.X), sAct("field:"+types.ExprString(x)))
+		}
 		return b.expr(x.X)
+	case *ast.Ident:
+		if b.fields[x.Name] && x.Obj == nil { // package-level variable named as a guarded field
+			return sAct("field:" + x.Name)
+		}
+		return ".skip"
 	case *ast.StarExpr:
 		return b.expr(x.X)
 	case *ast.TypeAssertExpr:
@@ -276,7 +289,13 @@ func (b *skb) stmt(s ast.Stmt) string {
 		body := sSeq(b.expr(x.Cond), sSeq(b.block(x.Body.List), b.stmt(x.Post)))
 		return sSeq(b.stmt(x.Init), "(.loop "+body+")")
 	case *ast.RangeStmt:
-		return sSeq(b.expr(x.X), "(.loop "+b.block(x.Body.List)+")")
+		r := b.expr(x.X)
+		if n := types.ExprString(x.X); b.maps[lastSel(n)] {
+			r = sSeq(r, sAct("maprange:"+n))
+			// every iteration reads the map again
+			return sSeq(r, "(.loop "+sSeq(sAct("maprange:"+n), b.block(x.Body.List))+")")
+		}
+		return sSeq(r, "(.loop "+b.block(x.Body.List)+")")
 	case *ast.DeferStmt:
 		return "(.dfr " + b.expr(x.Call) + ")"
 	case *ast.GoStmt:
@@ -342,9 +361,13 @@ func (p *pkgInfo) skeleton(key string, maps ...string) (string, bool) {
 		miss("function " + key)
 		return "(.act \"<missing>\")", false
 	}
-	b := &skb{closures: map[string]*ast.FuncLit{}, maps: map[string]bool{}}
+	b := &skb{closures: map[string]*ast.FuncLit{}, maps: map[string]bool{}, fields: map[string]bool{}}
 	for _, m := range maps {
-		b.maps[m] = true
+		if strings.HasPrefix(m, "field:") {
+			b.fields[strings.TrimPrefix(m, "field:")] = true
+		} else {
+			b.maps[m] = true
+		}
 	}
 	return b.block(fd.Body.List), true
 }
